@@ -1113,7 +1113,10 @@ def standalone(case, v):
             'import cssutils, logging\ncssutils.log.setLevel(logging.FATAL)\n'
             f'name, value = {n!r}, {val!r}\n'
             f'# observation {case["obs"]!r}; {v.get("note", "")!r}\n'
-            "for text in ('a{%s:%s}' % (name, value), '@font-face{%s:%s}' % (name, value)):\n"
+            f"witness = {(v.get('note') or '')!r}  # the text / call of the violating observation\n"
+            "texts = ['a{%s:%s}' % (name, value), '@font-face{%s:%s}' % (name, value)]\n"
+            "if witness.startswith(('a{', '@font-face{')) and witness not in texts:\n    texts.append(witness)\n"
+            "for text in texts:\n"
             '    s = cssutils.parseString(text)\n'
             '    print(text, [(p.name, p.value, p.valid) for r in s.cssRules for p in r.style.getProperties(all=True)], s.valid)\n'
             'try:\n    print("Property():", cssutils.css.Property(name, value).valid)\nexcept Exception as e:\n    print("Property():", type(e).__name__)\n'
